@@ -40,18 +40,25 @@ def check(ctx):
             continue
         init = c.find_method('__init__')
         sets = False
-        if init:
+        hops = 0
+        while init and not sets and hops < 5:
+            hops += 1
+            nxt = None
             for n in walk_no_nested(init[1]):
                 if isinstance(n, ast.Call) and isinstance(n.func, ast.Attribute) and n.func.attr in ('set_size_range', 'set_range', 'set_restricted_to_range') \
                         and isinstance(n.func.value, ast.Name) and n.func.value.id == 'self':
                     sets = True
+                # super().__init__(..) / Base.__init__(self, ..): the range may be set by a base-class constructor
+                if isinstance(n, ast.Call) and isinstance(n.func, ast.Attribute) and n.func.attr == '__init__':
+                    nxt = c.find_method('__init__', after=init[0])
+            init = nxt
         if sets or c.name == 'Integer':
             ranged.append(c)
     measure = {'String': 'len(ARG0)', 'Bytes': 'len(ARG0)', 'List': 'len(ARG0)', 'BitString': 'ARG0[1]', 'Integer': 'ARG0'}
     for c in ranged:
         enc = c.find_method('encode')
         f = enc[1] if enc else None
-        ps = sem.paths(f, positional=True) if f is not None else None
+        ps = sem.paths(f, positional=True, resolver=sem.class_resolver(c, keep=('is_in_range',))) if f is not None else None
         if f is None or ps is None:
             ctx.instance('C11.R1', '%s.encode checks is_in_range' % c.qname, 'VIOLATION' if f is None else 'undecided', nontrivial=False, node=f or c.node, file=CC)
             if f is None:
@@ -81,19 +88,20 @@ def check(ctx):
                           'checker class %s receives a range but its encode does not unconditionally test self.is_in_range(...) and raise ConstraintsError' % c.name,
                           stmt='is_in_range test')
         # what is measured: len(data) for String/Bytes/List, data[1] for BitString, data for Integer
-        if c.name in measure and f._cls is c:
+        if c.name in measure:
             want = measure[c.name]
             okm = measured == {want}
             ctx.instance('C11.R1', '%s measures %s' % (c.qname, sorted(measured)), 'ok' if okm else 'VIOLATION', node=f, file=CC)
             if not okm:
                 ctx.violation('C11.R1', CC, f, c.qname + '.encode', '%s must compare %s with its range, but compares %s' % (c.name, want.replace('ARG0', 'data'), sorted(measured)), stmt='measured quantity')
-    if len(ranged) < 9:
+    if len(ranged) < 6:
         raise AnalysisError('C11.R1: only %d ranged checker classes found' % len(ranged))
-    # alphabet: every character of the data is tested for membership, a character outside raises
-    f = model.cls(CC, 'String').methods['encode']
-    ps = sem.paths(f, positional=True) or []
-    body = [p for p in sem.with_loop_bodies(ps)]
-    loops_over_data = [ev for p in ps for ev in p.events if ev[0] == 'loop' and ev[1] == 'ARG0']
+    # alphabet: every character of the data is tested for membership, a character outside raises -- in encode itself or in a
+    # method of the class that encode hands its data to
+    scls = model.cls(CC, 'String')
+    f = scls.find_method('encode')[1]
+    sres = sem.class_resolver(scls)
+
     def raises_constraints_error(p_, cls_):
         if p_.outcome[0] != 'raise':
             return False
@@ -102,34 +110,52 @@ def check(ctx):
         r_ = cls_.find_method(p_.outcome[1]) or (None, cls_.mod.functions.get(p_.outcome[1]))
         g_ = r_[1] if r_ else None
         return g_ is not None and any(isinstance(x_, ast.Return) and x_.value is not None and 'ConstraintsError' in ast.unparse(x_.value) for x_ in walk_no_nested(g_))
-    ok = any(raises_constraints_error(p, model.cls(CC, 'String')) and any(c_[0].endswith(' in self.permitted_alphabet') and '@' in c_[0] and not c_[1] for c_ in p.conds) for p in body)
+    cands = [(f, 'ARG0')]
+    for p in (sem.paths(f, positional=True) or []):
+        for ev in p.events:
+            if ev[0] == 'call' and len(ev) > 3 and isinstance(ev[3].func, ast.Attribute) and sem.ctext(ev[3].func.value) == 'self':
+                g_ = sres(ev[2])
+                if g_ is not None and g_ is not f and not any(g_ is x for x, _ in cands):
+                    for i_, a_ in enumerate(ev[3].args):
+                        if sem.ctext(a_) == 'ARG0':
+                            cands.append((g_, 'ARG%d' % i_))
+    ok = loops_ok = False
+    for g_, dparam in cands:
+        gps = sem.paths(g_, positional=True) or []
+        body = [p for p in sem.with_loop_bodies(gps)]
+        if any(raises_constraints_error(p, scls) and any(c_[0].endswith(' in self.permitted_alphabet') and '@' in c_[0] and not c_[1] for c_ in p.conds) for p in body):
+            ok = True
+            loops_ok = loops_ok or any(ev[0] == 'loop' and ev[1] == dparam for p in gps for ev in p.events)
     ctx.instance('C11.R1', 'String.encode tests every character against permitted_alphabet', 'ok' if ok else 'VIOLATION', node=f, file=CC)
     if not ok:
         ctx.violation('C11.R1', CC, f, 'constraints_checker.String.encode', 'permitted-alphabet membership test missing', stmt='alphabet test')
-    ok = bool(loops_over_data)
+    ok = loops_ok
     ctx.instance('C11.R1', 'String.encode iterates over all characters', 'ok' if ok else 'VIOLATION', node=f, file=CC)
     if not ok:
         ctx.violation('C11.R1', CC, f, 'constraints_checker.String.encode', 'the alphabet test does not visit every character of data', stmt='alphabet loop')
-    # containers recurse
-    for cn, coll, recv in (('Dict', 'self.members', None), ('List', 'ARG0', 'self.element_type'), ('Choice', None, None), ('Recursive', None, 'self.inner')):
-        f = model.cls(CC, cn).methods['encode']
-        ps = sem.paths(f, positional=True) or []
+    # containers recurse: the child's encode is called (directly or through a helper that is handed the child) -- for Dict and List inside
+    # a loop over the collection
+    from .. import defaults
+    for cn, coll, recv in (('Dict', 'self.members', None), ('List', 'DATA', 'self.element_type'), ('Choice', None, None), ('Recursive', None, 'self.inner')):
+        ccls = model.cls(CC, cn)
+        f = ccls.find_method('encode')[1]
+        dparam = flow.param_names(f)[1] if len(flow.param_names(f)) > 1 else None
+        es = defaults.EncodeSites(ccls)
         ok = False
-        for p in ps:
-            inloop = None
-            for ev in p.events:
-                if ev[0] == 'loop':
-                    inloop = ev[1]
-                elif ev[0] == 'endloop':
-                    inloop = None
-                if ev[0] in ('call', 'in-loop:call') and sem.callee_name(ev[3]) == 'encode' and isinstance(ev[3].func, ast.Attribute):
-                    r_ = sem.ctext(ev[3].func.value)
-                    if recv is not None and r_ != recv:
-                        continue
-                    if coll is None and ev[0] == 'call':
-                        ok = True
-                    if coll is not None and ev[0] == 'in-loop:call':
-                        ok = ok or any(e2[0] == 'loop' and e2[1] == coll for e2 in p.events)
+        for g_, node, r_, _why, _how, _conds in es.sites:
+            if g_ is not f:
+                continue
+            if recv is not None and r_ != recv:
+                continue
+            if coll is None:
+                ok = True
+                continue
+            want_iter = dparam if coll == 'DATA' else coll
+            for anc in flow.ancestors(node):
+                if isinstance(anc, (ast.For, ast.comprehension)) and ast.unparse(anc.iter) == want_iter:
+                    ok = True
+                if isinstance(anc, (ast.ListComp, ast.GeneratorExp, ast.SetComp)) and any(ast.unparse(g2.iter) == want_iter for g2 in anc.generators):
+                    ok = True
         ctx.instance('C11.R1', '%s.encode recurses into its children' % cn, 'ok' if ok else 'VIOLATION', node=f, file=CC)
         if not ok:
             ctx.violation('C11.R1', CC, f, 'constraints_checker.%s.encode' % cn, 'container does not check every child (encode over %s)' % (coll or 'the selected member'), stmt='recursion')
@@ -138,7 +164,7 @@ def check(ctx):
 
     def truth_cases(fn):
         """DNF (set of frozensets of literals) of the conditions under which fn returns a true value; None when not decided"""
-        ps_ = sem.paths(fn, positional=True)
+        ps_ = sem.paths(fn, positional=True, consts=True)
         if ps_ is None:
             return None
         cases = set()
